@@ -24,6 +24,12 @@ built directly from the accumulated data and the same hyper-parameters:
 The search bounds are handed over in every container form (list of tuples, list of lists, float (d,2) ndarray, int (d,2) ndarray); after every call
   history/caller-array-modified/ctor-bounds/given-as:<form>    the caller's bounds object is no longer what was passed (bytes / shape / dtype)
   history/propose-<route>/outside-bounds                       a proposal outside the ORIGINAL box (kept by the harness, not read back from the objects)
+Repeated measurements (same evaluator, alphabet {A, Ri, Rl, Pb}): every history of length <= 3 that contains an add_evaluation at a location that
+is ALREADY a row of the data (Ri: an initial point; Rl: the point added last) with y = incumbent + 1/4, with / without errors, in every input form:
+the evaluation must become one more row of x / y / y_err of the optimiser AND of its re-fitted model and be the new incumbent, like any other add
+  history/data/<x|y|gp.x|gp.y>-is-not-initial-data-plus-added-evaluations/after-add-at-a-location-already-in-the-data
+  history/data/y_err-is-not-initial-plus-added-errors/after-add-at-a-location-already-in-the-data
+  history/incumbent/mu_max-is-not-max-y/after-add-at-a-location-already-in-the-data         (and all probes / invariants above in those states)
 """
 import copy
 import itertools
@@ -384,6 +390,10 @@ def ev_selftest(case):
 
 # ====================================================================================== part C: histories
 ACTIONS = ["Pb", "Pd", "A"]
+# repeated measurements: add_evaluation at a location that is ALREADY a row of the data, with y above the incumbent
+#   Ri  at an initial data point (rotating through them)      Rl  at the point added last (before any add: at the last initial point)
+REPEATS = ["Ri", "Rl"]
+ACTIONS_REPEAT = ["A", "Ri", "Rl", "Pb"]
 
 
 class Script:
@@ -485,6 +495,13 @@ def rel_dev(a, b, floor):
     return abs(a - b) / max(abs(a), abs(b), floor)
 
 
+def point_form(d, p, k):
+    """the point p (list of d floats) in the k-th input form of add_evaluation"""
+    if d == 1:
+        return [float(p[0]), np.array(p, dtype=float), np.array([p], dtype=float), np.array(float(p[0]))][k % 4]
+    return [np.array(p, dtype=float), [float(v) for v in p], np.array([p], dtype=float), np.array(p, dtype=float)][k % 4]
+
+
 def menu_point(d, k):
     """k-th menu point in the k-th input form."""
     p = MENU[d][k % len(MENU[d])]
@@ -573,14 +590,15 @@ def run_one_history(cfg, hist, bad, counters):
                 bad(f"history/caller-array-modified/{site}", f"after {where}: the caller's {name} was modified ({how})", history=done, d=d)
             X, Y = np.array(mx), np.array(my)
             ok = True
+            rep = "/after-add-at-a-location-already-in-the-data" if (done and done[-1] in REPEATS) else ""
             for nm, arr, want in (("x", getattr(opt, "x", None), X), ("y", getattr(opt, "y", None), Y), ("gp.x", getattr(opt.gp, "x", None), X), ("gp.y", getattr(opt.gp, "y", None), Y)):
                 if arr is None or np.asarray(arr).shape != want.shape or not np.array_equal(np.asarray(arr), want):
-                    bad(f"history/data/{nm}-is-not-initial-data-plus-added-evaluations", f"after {where}: {nm} = {None if arr is None else np.asarray(arr).tolist()} but the data are {want.tolist()}", history=done)
+                    bad(f"history/data/{nm}-is-not-initial-data-plus-added-evaluations{rep}", f"after {where}: {nm} = {None if arr is None else np.asarray(arr).tolist()} but the data are {want.tolist()}", history=done)
                     ok = False
             if me is not None:
                 E = np.array(me)
                 if not np.array_equal(np.asarray(opt.y_err), E):
-                    bad("history/data/y_err-is-not-initial-plus-added-errors", f"after {where}: y_err = {np.asarray(opt.y_err).tolist()} vs {E.tolist()}", history=done)
+                    bad(f"history/data/y_err-is-not-initial-plus-added-errors{rep}", f"after {where}: y_err = {np.asarray(opt.y_err).tolist()} vs {E.tolist()}", history=done)
                 sig = getattr(opt.gp, "sig", None)
                 if sig is not None and np.asarray(sig).shape == (len(me), len(me)):
                     if not np.allclose(np.diag(np.asarray(sig)), E**2, rtol=4 * EPS, atol=0):
@@ -590,7 +608,7 @@ def run_one_history(cfg, hist, bad, counters):
                 bad("history/model/acquisition-not-on-the-current-model", f"after {where}: acquisition.gp is not the optimiser's current gp", history=done)
             mm = getattr(a, "mu_max", None)
             if mm is None or float(mm) != max(my):
-                bad("history/incumbent/mu_max-is-not-max-y", f"after {where}: acquisition.mu_max = {mm!r}, max(y) = {max(my)!r}", history=done)
+                bad(f"history/incumbent/mu_max-is-not-max-y{rep}", f"after {where}: acquisition.mu_max = {mm!r}, max(y) = {max(my)!r}", history=done)
             return ok
 
         carry = {"pt": None}
@@ -722,13 +740,21 @@ def run_one_history(cfg, hist, bad, counters):
                 if isinstance(p, np.ndarray):
                     snap.add(f"proposal-returned-by-propose_evaluation#{pos}", p)
             else:
-                if pending is not None:
+                if act in REPEATS:
+                    # a repeated measurement at a location that is ALREADY in the data, with a value above the incumbent: like any other
+                    # evaluation it becomes one more row of the data and the new incumbent (a pending proposal stays pending)
+                    if act == "Ri" or nadd == 0:
+                        pt_, src = rows[(nadd + (len(rows) - 1 if act == "Rl" else 0)) % len(rows)], "repeat-of-initial-point"
+                    else:
+                        pt_, src = mx[-1], "repeat-of-last-added-point"
+                    nx = point_form(d, pt_, nadd + pos)
+                elif pending is not None:
                     nx, src = pending, "proposal"
                     pending = None
                 else:
                     nx, src = menu_point(d, nadd), f"menu-form-{nadd % 4}"
                 vals = np.asarray(nx, float).reshape(-1).tolist()
-                yv = objective(vals)
+                yv = (max(my) + 0.25) if act in REPEATS else objective(vals)
                 ny = [yv, np.array(yv), np.array([yv]), np.float64(yv)][nadd % 4]
                 ev = 0.05 + 0.01 * nadd
                 ne = [ev, np.array([ev]), np.array(ev), ev][nadd % 4]
@@ -745,7 +771,7 @@ def run_one_history(cfg, hist, bad, counters):
                         else:
                             opt.add_evaluation(nx, ny, ne)
                 except LibFailure as e:
-                    bad(f"history/add_evaluation/{src.split('-')[0]}/raises:{e.exc_type}", f"add_evaluation raised after {done} (new_x {vals}): {e}", history=done, traceback=e.tb)
+                    bad(f"history/add_evaluation/{src.split('-')[0]}/raises:{e.exc_type}", f"add_evaluation raised after {done} (new_x {vals}, {src}): {e}", history=done, traceback=e.tb)
                     return None
                 counters["n"] += 1
                 mx.append(vals)
@@ -754,9 +780,14 @@ def run_one_history(cfg, hist, bad, counters):
                     me.append(ev)
                 nadd += 1
                 dup = any(vals == r for r in mx[:-1])
-                counters["tags"].add(f"add {src.split('-')[0]} d={d} yerr={me is not None}{' duplicate-point' if dup else ''} new-max={yv == max(my)}")
+                if act in REPEATS:
+                    if not dup:
+                        raise HarnessError(f"repeat action {act} did not produce a location that is already in the data: {vals} vs {mx[:-1]}")
+                    counters["tags"].add(f"add {src} d={d} yerr={me is not None} acq={cfg['acq']} form={type(nx).__name__}{np.shape(nx)} pending-proposal={pending is not None} rows-at-this-location={sum(vals == r for r in mx)}")
+                else:
+                    counters["tags"].add(f"add {src.split('-')[0]} d={d} yerr={me is not None}{' duplicate-point' if dup else ''} new-max={yv == max(my)}")
             if invariants(f"{'.'.join(done)}", done):
-                probes(".".join(done), done, vals if act == "A" else None, pending, nadd)
+                probes(".".join(done), done, vals if act not in ("Pb", "Pd") else None, pending, nadd)
         counters["random_calls"] += script.calls
         pend = None if pending is None else np.asarray(pending, float).tobytes()
         return (np.array(mx).tobytes(), np.array(my).tobytes(), None if me is None else np.array(me).tobytes(), pend)
@@ -778,6 +809,8 @@ def ev_history(case):
     states = set()
     transitions = 0
     first = cfg["first"]
+    alphabet = cfg.get("alphabet", ACTIONS)
+    must = cfg.get("must_contain")
     frontier = [[]] if first is None else [[first]]
     if first is None:
         k = run_one_history(cfg, [], bad, counters)
@@ -788,13 +821,18 @@ def ev_history(case):
     while frontier and level <= depth:
         nxt = []
         for h in frontier:
+            if must and not any(a in must for a in h):
+                # covered by the main enumeration; only its extensions that contain one of the required actions are run here
+                if len(h) < depth:
+                    nxt += [h + [a] for a in alphabet]
+                continue
             k = run_one_history(cfg, h, bad, counters)
             transitions += 1
             if k is None:
                 continue
             states.add(k)
             if len(h) < depth:
-                nxt += [h + [a] for a in ACTIONS]
+                nxt += [h + [a] for a in alphabet]
         frontier = nxt
         level += 1
     tags = set(counters["tags"])
@@ -859,6 +897,21 @@ def run(ck):
                 for first in [None] + ACTIONS:
                     hcases.append({"d": d, "acq": acq, "kappa": kappa, "script": script, "yerr": yerr, "layout": layout, "xform": xform, "bform": bform, "first": first, "depth": 3})
     res = ck.run_cases("history", hcases, chunk=1)
+    # ---- repeated measurements: every history of length <= 3 over {A, Ri, Rl, Pb} that contains a repeat action
+    rcases = []
+    racq = [("EI", None), ("UCB", 2.0), ("MV", None)]
+    for d in (1, 2):
+        xforms = ("col", "flat", "strided") if d == 1 else ("own", "view")
+        for yi, yerr in enumerate((True, False)):
+            sel = [racq[(d + yi + seed) % 3]] if quick else racq
+            for ai, (acq, kappa) in enumerate(sel):
+                cfgr = {"d": d, "acq": acq, "kappa": kappa, "script": scripts[(d + yi + ai) % len(scripts)], "yerr": yerr, "layout": ["inside", "outside"][(yi + ai + seed) % 2],
+                        "xform": xforms[(yi + ai + seed) % len(xforms)], "bform": BOUND_FORMS[(d + yi + ai + seed) % 3], "depth": 3, "alphabet": ACTIONS_REPEAT, "must_contain": REPEATS}
+                rcases += [dict(cfgr, first=first) for first in ACTIONS_REPEAT]
+    rres = ck.run_cases("history", rcases, chunk=1)
+    ck.extra["repeated_measurements"] = {"alphabet": ACTIONS_REPEAT, "configurations": len(rcases) // len(ACTIONS_REPEAT), "depth": 3,
+                                         "histories_with_a_repeat_per_configuration": sum(4 ** l - 2 ** l for l in (1, 2, 3)),
+                                         "transitions_executed_and_checked": int(sum(r.get("transitions", 0) for r in rres))}
     ck.extra["history_search"] = {
         "configurations": len(hcases) // 4,
         "histories_per_configuration": 1 + 3 + 9 + 27,
@@ -881,8 +934,14 @@ def run(ck):
         "evaluated (__call__, opt_func, opt_func_gradient, in an order rotated by probe/history position, inputs alternately (1,d) and (d,)) at the probe menu "
         "{last point probed in the previous state, point just added (first and again after the others), menu points 0 and 1 (probed before and after they are added), "
         "an initial data point, a point never added, the pending proposal or else the menu point that would be added next} and compared with a fresh GpOptimiser built "
-        "directly from the accumulated data and the current model's hyper-parameters; a probe tag is (role, d, acquisition, kind of the last call, adds so far)."
+        "directly from the accumulated data and the current model's hyper-parameters; a probe tag is (role, d, acquisition, kind of the last call, adds so far). "
+        "Repeated measurements: every history of length <= 3 over {add (menu point / pending proposal), Ri = add at an initial data point, Rl = add at the point added last (before any add: "
+        "the last initial point), propose(bfgs)} that contains Ri or Rl (70 per configuration) x d{1,2} x y_err{yes,no} x acquisition (quick: one rotating per (d, y_err); thorough: all three), "
+        "y = current incumbent + 1/4, errors and input forms rotating as for other adds; same invariants and probes in every post-state (the data are the initial data plus EVERY added "
+        "evaluation in order, the model is re-fitted to them, mu_max = max y); a repeat tag is (which point, d, y_err, acquisition, input form, pending proposal, rows at that location)."
     )
+    ck.assume("repeated measurements: a second evaluation at a location already in the data is an ordinary evaluation (noisy objective; also without y_err, where the model's diagonal jitter "
+              "keeps the covariance factorisable): the property's 'adding an evaluation makes it part of the data and updates the incumbent' has no exception for it; a pending proposal stays pending")
     ck.assume("continuous inputs are represented by the listed finite lattice (d<=2, n<=6, SquaredExponential kernel, z in [-40, 8]); z is steered through public inputs only (the mean-function constant, or inside the data hull the value of the incumbent data point); targets above the ceiling reachable inside the hull and points whose variance is below resolution are skipped and counted")
     ck.assume("ExpectedImprovement accuracy: the far-tail form's rounding error everywhere, and additionally the documented form sigma(z F + P) evaluated in doubles wherever that form's own error is below 1e-10 relative (z >~ -3.2); the location of the switch is not prescribed")
     ck.assume("scipy's differential_evolution draws from numpy's global RandomState, which is seeded per call; for it only 'the proposal lies in the bounds' and the data/incumbent invariants are claimed. The random starts of the bfgs route (numpy.random.random imported by name into inference.gp.acquisition and inference.gp.regression) are scripted: every call returns the constant 0, 1/2 or 1-, or cycles through them")
